@@ -294,8 +294,8 @@ class LimitLoops(Contract):
     def obligation_props(self):
         q = self.qual
         return {
-            f'{q}.exclude_': ('C07', 'C03', 'C11'), f'{q}.norm_pattern': ('C20',), f'{q}.expand_receives': ('C20', 'C11'),
-            f'{q}.each_expansion': ('C07', 'C03'), f'{q}.exclusions_always': ('C03', 'C07'), f'{q}.NEGATEALL': ('C07', 'C14', 'C08'),
+            f'{q}.exclude_': ('C07', 'C03', 'C11', 'C04'), f'{q}.norm_pattern': ('C20',), f'{q}.expand_receives': ('C20', 'C11'),
+            f'{q}.each_expansion': ('C07', 'C03'), f'{q}.exclusions_always': ('C03', 'C07', 'C04'), f'{q}.NEGATEALL': ('C07', 'C14', 'C08'),
             f'{q}.loop': ('C11', 'C07', 'C03'), f'_wcparse.{q}.raises_only_documented': ('C11', 'C10'), f'{q}.flags_used': ('C07', 'C08'), f'{q}.running_total': ('C11',),
         }
 
